@@ -198,3 +198,18 @@ func init() {
 }
 
 var _ = ast.Inspect
+
+// parse: go/parser verdict on a list of sources.
+func init() {
+	handlers["parse"] = func(req json.RawMessage) (any, error) {
+		var in struct {
+			Srcs [][]byte `json:"srcs"`
+		}
+		if err := json.Unmarshal(req, &in); err != nil {
+			return nil, err
+		}
+		out := make([]string, len(in.Srcs))
+		parallel(len(in.Srcs), func(i int) { out[i] = parseErrOf("x.go", in.Srcs[i]) })
+		return map[string]any{"errs": out}, nil
+	}
+}
